@@ -23,6 +23,9 @@ from . import tlc
 KIND_DTYPE = {"i": np.int64, "f": np.float64, "b": np.bool_}
 
 
+MUTANT = None  # set only by binding_selftest
+
+
 class SpecMismatch(Exception):
     """spec and NumPy disagree: machinery error"""
 
@@ -129,6 +132,8 @@ def apply_action(mod, act, env, lib):
     if a == "Squeeze":
         return mod.squeeze(X(), axis=act["axis"] - 1)
     if a == "Flip":
+        if lib == "da" and MUTANT == "flip-is-identity":  # negative control of the binding (never set in a real run)
+            return X()
         return mod.flip(X(), act["axis"] - 1)
     if a == "Roll":
         return mod.roll(X(), act["shift"], axis=act["axis"] - 1)
@@ -283,6 +288,7 @@ def replay_one(beh, grids, observers=(), compute_all=True, opts=None):
                 ob(ctx, k, act, d, arr, problems)
             continue
         expect_err = exp["kind"] == "err"
+        n0 = len(problems)
         # ---- NumPy (second oracle)
         np_err = None
         try:
@@ -317,7 +323,9 @@ def replay_one(beh, grids, observers=(), compute_all=True, opts=None):
             d_err = ex
         da_env.append(d if d_err is None else None)
         if expect_err:
-            if d_err is None:
+            # Only indexing is required to raise (C12); where NumPy has no result for another
+            # operation the properties say nothing about what dask_array returns.
+            if d_err is None and act["a"] == "Index":
                 problems.append(("invalid-operation-did-not-raise", f"action {k}: {act} returned {got!r}"))
             # later actions never use an err handle (spec guarantees)
             continue
@@ -333,13 +341,21 @@ def replay_one(beh, grids, observers=(), compute_all=True, opts=None):
             if tuple(got.shape) != tuple(exp["shape"]):
                 problems.append(("shape", f"action {k} {act['a']}: computed shape {got.shape}, expected {tuple(exp['shape'])}"))
             elif not same_values(got, want, exp["kind"]):
-                problems.append(("values", f"action {k} {act['a']}: computed {got.tolist()!r}, expected {want.tolist()!r}"))
+                clause = "values"
+                if act["a"] == "ArgFlat" and got.ndim == 0:
+                    flat = np.asarray(np_env[act["x"] - 1]).ravel()
+                    if 0 <= int(got) < flat.size and flat[int(got)] == flat[int(want)]:
+                        clause = "values-other-occurrence-of-the-extreme-value"
+                problems.append((clause, f"action {k} {act['a']}: computed {got.tolist()!r}, expected {want.tolist()!r}"))
             elif got.dtype != np.asarray(nv).dtype:
                 problems.append(("dtype", f"action {k} {act['a']}: computed dtype {got.dtype}, NumPy {np.asarray(nv).dtype}"))
             if tuple(d.shape) != tuple(exp["shape"]) and not any(isinstance(s, float) and math.isnan(s) for s in d.shape):
                 problems.append(("advertised-shape", f"action {k} {act['a']}: advertised {d.shape}, expected {tuple(exp['shape'])}"))
             if d.dtype != np.asarray(nv).dtype:
                 problems.append(("advertised-dtype", f"action {k} {act['a']}: advertised {d.dtype}, NumPy {np.asarray(nv).dtype}"))
+            if len(problems) > n0:
+                # later expectations would be built on a handle that is already wrong
+                break
         if act["a"] == "Rechunk":
             wantc = tuple(tuple(c) for c in act["chunks"])
             if tuple(d.chunks) != wantc:
@@ -347,6 +363,19 @@ def replay_one(beh, grids, observers=(), compute_all=True, opts=None):
         for ob in observers:
             ob(ctx, k, act, d, nv, problems)
     return problems
+
+
+def failing_action(beh, detail):
+    """position, action record and operand shapes of the action a problem was reported for"""
+    import re
+
+    m = re.match(r"action (\d+)", detail)
+    if not m:
+        return {}
+    k = int(m.group(1))
+    act = beh["prog"][k]
+    hs = [act[f] for f in ("x", "y", "c") if isinstance(act.get(f), int) and act.get(f)] + list(act.get("xs", []))
+    return {"at": k, "act": act, "operand_shapes": {str(h): list(beh["env"][h - 1]["shape"]) for h in hs}}
 
 
 def _worker(args):
@@ -363,7 +392,7 @@ def _worker(args):
         for grids in variants(beh, max_variants, rng):
             out.n_programs += 1
             try:
-                probs = replay_one(beh, grids, obs, opts=opts)
+                probs = replay_one(beh, grids, obs, compute_all=not (opts or {}).get("no_compute"), opts=opts)
             except SpecMismatch as ex:
                 out.machinery.append(str(ex))
                 continue
@@ -372,7 +401,8 @@ def _worker(args):
             for a in beh["prog"]:
                 out.stats[a["a"]] = out.stats.get(a["a"], 0) + 1
             for clause, detail in probs:
-                case = {"prog": beh["prog"], "grids": [list(map(list, g)) for g in grids], "detail": detail}
+                case = {"prog": beh["prog"], "env": beh["env"], "grids": [list(map(list, g)) for g in grids], "detail": detail}
+                case.update(failing_action(beh, detail))
                 out.violations.append((case, clause))
     return out
 
@@ -429,3 +459,39 @@ def generate_programs(acts, maxlen, preset, *, sim, num=None, seed=0, smax=3, id
         res = tlc.run_tlc("ArrayProgram", cfg, rundir=rundir, timeout=timeout, heap="4g")
     tlc.require_clean(res, "ArrayProgram generation")
     return parse_behaviours(res), res
+
+
+def binding_selftest(behaviours, seed=0):
+    """Negative control: replay the Flip programs against a deliberately wrong library call
+    (flip = identity).  The replay must report a value mismatch for every flipped axis longer than 1
+    whose data is not symmetric; returns (programs, detected)."""
+    global MUTANT
+    picked = [b for b in behaviours if any(a["a"] == "Flip" for a in b["prog"])][:40]
+    MUTANT = "flip-is-identity"
+    try:
+        out = run_corpus(picked, max_variants=1, seed=seed, procs=1)
+    finally:
+        MUTANT = None
+    return len(picked), len([1 for _, cl in out.violations if cl == "values"])
+
+
+def replay_file(chk, path):
+    """--replay: run the recorded program again (same grids) against the current tree."""
+    d = json.load(open(path))
+    case = d["case"]
+    beh = {"prog": case["prog"], "env": case["env"]}
+    try:
+        probs = replay_one(beh, [tuple(tuple(ax) for ax in g) for g in case["grids"]])
+    except SpecMismatch as ex:
+        raise tlc.MachineryError(str(ex))
+    chk.cov["evaluations"] += 1
+    chk.cov["traces_validated_against_impl"] += 1
+    chk.cov["rule"] = "replay of one recorded program"
+    chk.sample({"prog": case["prog"]})
+    for clause, detail in probs:
+        if clause == "declined":
+            continue
+        c = {"prog": beh["prog"], "env": beh["env"], "grids": case["grids"], "detail": detail}
+        c.update(failing_action(beh, detail))
+        chk.violation(c, clause)
+    return chk.finish()
